@@ -152,7 +152,7 @@ func c14Opts(mode string) []gtree.Option {
 		return []gtree.Option{gtree.WithEncodeYAML()}
 	case "toml":
 		return []gtree.Option{gtree.WithEncodeTOML()}
-	case "dry":
+	case "dry", "dry-colour":
 		return []gtree.Option{gtree.WithDryRun(), gtree.WithFileExtensions([]string{"b"})}
 	case "text-noiter":
 		return []gtree.Option{gtree.WithNoUseIterOfSimpleOutput()}
@@ -165,6 +165,11 @@ func c14Opts(mode string) []gtree.Option {
 // c14Call runs one output call with the given reader and writer.
 func c14Call(r c14Replay, rd *failReader, fw *failWriter) (err error, pan string) {
 	opts := c14Opts(r.Mode)
+	if r.Mode == "dry-colour" {
+		// colours switched on (what a terminal gives): the report carries SGR sequences, a failing writer still fails
+		color.NoColor = false
+		defer func() { color.NoColor = true }()
+	}
 	var w io.Writer = fw
 	if fw != nil {
 		w = r.dest(fw)
@@ -328,7 +333,7 @@ func init() {
 				})
 			})
 		}
-		modes := []string{"text", "text-noiter", "text-fmt", "json", "yaml", "toml", "dry"}
+		modes := []string{"text", "text-noiter", "text-fmt", "json", "yaml", "toml", "dry", "dry-colour"}
 		c.Bound("documents", fmt.Sprint(len(docs)))
 		for _, doc := range docs {
 			sp := model.ParseSpec(doc)
